@@ -1,8 +1,10 @@
 import Qryn.LogQL.Sem
-/-! Helper lemmas for C07. TO BE PROVED (no sorry may remain). -/
+import Qryn.Proofs.Like
+import Qryn.Proofs.Limit
+/-! Helper lemmas for C07. -/
 namespace Qryn.Sql
-theorem like_contains (s v : Bytes) : like s (37 :: likeEscape v ++ [37]) = true ↔ v <:+: s := by
-  sorry
+theorem like_contains (s v : Bytes) : like s (37 :: likeEscape v ++ [37]) = true ↔ v <:+: s :=
+  like_contains' s v
 end Qryn.Sql
 
 namespace Qryn.LogQL
@@ -22,14 +24,14 @@ theorem planLog_correct (o : Oracles) (c : Ctx) (hn : c.namesOk) (d : LokiDb) (q
 theorem limit_newest (o : Oracles) (c : Ctx) (d : LokiDb) (q : LogQuery) (kept cut : Sample)
     (hk : kept ∈ limited o c d q)
     (hc : cut ∈ d.samples.filter (entryMatches o c d q)) (hcut : cut ∉ limited o c d q) :
-    tsLe c kept cut = true := by
-  sorry
+    tsLe c kept cut = true :=
+  limit_newest' o c d q kept cut hk hc hcut
 
 theorem limited_sound (o : Oracles) (c : Ctx) (d : LokiDb) (q : LogQuery) (s : Sample)
-    (h : s ∈ limited o c d q) : s ∈ d.samples ∧ entryMatches o c d q s = true := by
-  sorry
+    (h : s ∈ limited o c d q) : s ∈ d.samples ∧ entryMatches o c d q s = true :=
+  limited_sound' o c d q s h
 
 theorem unlimited_complete (o : Oracles) (c : Ctx) (d : LokiDb) (q : LogQuery) (h : c.limit = 0) :
-    (limited o c d q).Perm (d.samples.filter (entryMatches o c d q)) := by
-  sorry
+    (limited o c d q).Perm (d.samples.filter (entryMatches o c d q)) :=
+  unlimited_complete' o c d q h
 end Qryn.LogQL
